@@ -403,7 +403,9 @@ class Program(object):
                 if not loop and all(x["k"] in ("cast", "use") or (x["k"] == "decl" and x.get("var") in res_vars) for x in rest_evs):
                     on_call = ("c:" + (call.get("callee") or "")) in (t_.get("refs") or [])
                     on_var = bool(res_vars) and any(("v:" + v_) in (t_.get("leafrefs") or t_.get("refs") or []) for v_ in res_vars)
-                    if t_ and (on_call or on_var) and len({str(r_.get("const")) + (r_.get("t") or "") for r_ in gflat.events("return")} | {str(r_.get("const")) + (r_.get("t") or "") for r_ in gflat.events("iret") if r_.get("of") == gflat.id}) > 1:
+                    rets_all_ = list(gflat.events("return")) + [r_ for r_ in gflat.events("iret") if r_.get("of") == gflat.id]
+                    bool_local_ = any((r_.get("val") or {}).get("v") and "bool" in ((r_.get("val") or {}).get("vt") or "") for r_ in rets_all_)
+                    if t_ and (on_call or on_var) and (len({str(r_.get("const")) + (r_.get("t") or "") for r_ in rets_all_}) > 1 or bool_local_):
                         # the caller branches on what the helper returned: every path of the helper that returns a constant is led
                         # straight to the branch that constant selects (see thread_returns); what is left is not modelled
                         thread = {"call": call, "vars": res_vars, "helper": gflat, "irets": []}
@@ -621,6 +623,22 @@ class Program(object):
             ir = [e for e in blk.elems if e["k"] == "iret" and e.get("of") == helper.id][-1]
             c = ir.get("const")
             k_ = choose(c) if c is not None else None
+            rv_ = (ir.get("val") or {}).get("v")
+            if c is None and rv_ and t_.get("k") == "if" and not t_.get("cmp") and is_subject(t_.get("core")) and len(rest.succs) == 2 and \
+                    "bool" in ((ir.get("val") or {}).get("vt") or (ir.get("val") or {}).get("ty") or ""):
+                # the helper returns one of its bool locals: the caller's branch becomes a branch on that local, so that the
+                # flag-sensitive exploration (cfg.flag_vars) sends each path of the helper down the arm its value selects
+                key = "var:" + rv_
+                if key not in made:
+                    nid = rest.id - span * 0.04 * (len(made) + 1) / 8.0
+                    nt = dict(rest.term)
+                    nt["core"] = dict(ir["val"])
+                    nt["leafrefs"] = ["v:" + rv_]
+                    nt["refs"] = list(dict.fromkeys(list(rest.term.get("refs") or []) + ["v:" + rv_]))
+                    nt["via_result_of"] = helper.id
+                    made[key] = mk(nid, [clone_ev(e) for e in rest.elems], list(rest.succs), nt, None)
+                blk.succs = [made[key].id if s_ == rest.id else s_ for s_ in blk.succs]
+                continue
             if k_ is None or rest.succs[k_] is None:
                 left += 1
                 continue
